@@ -1,0 +1,77 @@
+//go:build verif
+
+// Contracts for the deductive verification of this package (comment-only; built only with -tags verif).
+// Read by /verif/gocv: //@ lines are machine-checked specifications of the functions in this package.
+
+package grpcgcp
+
+//@ import balancer "google.golang.org/grpc/balancer"
+//@ import connectivity "google.golang.org/grpc/connectivity"
+//@ import resolver "google.golang.org/grpc/resolver"
+//@ import pb "github.com/GoogleCloudPlatform/grpc-gcp-go/grpcgcp/grpc_gcp"
+
+//@ autotag nopanic gcp_balancer.go C05
+//@ autotag nopanic gcp_picker.go C05
+//@ autotag nopanic gcp_interceptor.go C05 C12
+//@ autotag nopanic gcp_logger.go C05
+//@ autotag nopanic gcp_multiendpoint.go C16
+//@ autotag lock gcp_balancer.go C06
+//@ autotag lock gcp_picker.go C06
+//@ autotag lock gcp_interceptor.go C12
+//@ autotag lock gcp_multiendpoint.go C16
+//@ autotag term gcp_balancer.go C06
+//@ autotag term gcp_picker.go C06
+//@ autotag term gcp_multiendpoint.go C16
+//@ autotag race * C10
+
+// ---------------------------------------------------------------- protection classes (C10)
+
+//@ protect gcpBalancer.{affinityMap,fallbackMap,scStates,scRefs,scRefList,refreshingScRefs,picker,state,addrs} guarded_by gcpBalancer.mu
+//@ protect gcpBalancer.{cfg,methodCfg,unresponsiveDetection} init_once gcpBalancer.mu
+//@ protect gcpBalancer.{cc,csEvltr,log} immutable
+//@ protect gcpBalancer.rrRefId atomic
+//@ protect subConnRef.{subConn,stateSignal,lastResp,refreshing,refreshCnt} guarded_by gcpBalancer.mu
+//@ protect subConnRef.{affinityCnt,streamsCnt,deCalls} atomic
+//@ protect connectivityStateEvaluator.{numReady,numConnecting,numTransientFailure} guarded_by gcpBalancer.mu
+//@ protect gcpPicker.{gb,scRefs,log} immutable
+//@ protect errPicker.err immutable
+//@ guards gcpBalancer.mu: $created, $removed, $addrs, $connectRequested, $pubCount, $lastState, $lastPicker, $newCalls, $newFail, chanclosed
+//@ lockorder gcpPicker.mu < gcpBalancer.mu
+
+// ---------------------------------------------------------------- type and package invariants
+
+//@ typeinv gcpBalancer := this.cc != nil && this.csEvltr != nil && this.log != nil
+//@ typeinv gcpPicker := this.gb != nil && this.log != nil
+//@ globalinv deErr != nil && compLogger != nil
+
+// ---------------------------------------------------------------- pool invariant (lock invariant of gcpBalancer.mu)
+
+//@ inv gcpBalancer.mu I0 [C05] := this.affinityMap != nil && this.fallbackMap != nil && this.scStates != nil && this.scRefs != nil && this.refreshingScRefs != nil && this.picker != nil && this.methodCfg != nil
+//@ inv gcpBalancer.mu I1 [C01 C05] := forall sc balancer.SubConn :: {sc in this.scRefs} sc in this.scRefs ==> sc != nil && this.scRefs[sc] != nil && this.scRefs[sc].subConn == sc
+//@ inv gcpBalancer.mu I2 [C04 C05] := forall sc balancer.SubConn :: {sc in this.scRefs} {sc in this.scStates} (sc in this.scRefs) == (sc in this.scStates)
+
+//@ inv gcpBalancer.mu I3 [C05] := forall sc balancer.SubConn :: {sc in this.scRefs} sc in this.scRefs ==> this.scRefs[sc].stateSignal != nil
+//@ inv gcpBalancer.mu I3r [C05] := forall sc balancer.SubConn :: {sc in this.refreshingScRefs} sc in this.refreshingScRefs ==> this.refreshingScRefs[sc].stateSignal != nil
+//@ inv gcpBalancer.mu SigInv [C05] := forall r *subConnRef :: {r.stateSignal} r.stateSignal != nil ==> !closed(r.stateSignal) && r.stateSignal <= $alloc
+//@ inv gcpBalancer.mu SigInj [C05] := forall r1 *subConnRef, r2 *subConnRef :: {r1.stateSignal, r2.stateSignal} r1 != r2 && r1.stateSignal != nil ==> r1.stateSignal != r2.stateSignal
+//@ inv gcpBalancer.mu I8 [C05 C07] := forall sc balancer.SubConn :: {sc in this.refreshingScRefs} sc in this.refreshingScRefs ==> sc != nil && this.refreshingScRefs[sc] != nil && !(sc in this.scRefs) && this.refreshingScRefs[sc].subConn != sc
+//@ inv gcpBalancer.mu I6 [C04] := this.csEvltr.numReady == count(this.scStates, connectivity.Ready) && this.csEvltr.numConnecting == count(this.scStates, connectivity.Connecting) && this.csEvltr.numTransientFailure == count(this.scStates, connectivity.TransientFailure)
+
+// ---------------------------------------------------------------- balancer
+
+//@ func (cse *connectivityStateEvaluator) recordTransition
+//@   locks held gcpBalancer.mu
+//@   requires [C04.rt-pre] (oldState == connectivity.Ready ==> cse.numReady >= 1) && (oldState == connectivity.Connecting ==> cse.numConnecting >= 1) && (oldState == connectivity.TransientFailure ==> cse.numTransientFailure >= 1)
+//@   requires [C04.rt-pre-max] cse.numReady < 18446744073709551615 && cse.numConnecting < 18446744073709551615 && cse.numTransientFailure < 18446744073709551615
+//@   ensures [C04.rt-count] cse.numReady == old(cse.numReady) + b2i(newState == connectivity.Ready) - b2i(oldState == connectivity.Ready)
+//@   ensures [C04.rt-count] cse.numConnecting == old(cse.numConnecting) + b2i(newState == connectivity.Connecting) - b2i(oldState == connectivity.Connecting)
+//@   ensures [C04.rt-count] cse.numTransientFailure == old(cse.numTransientFailure) + b2i(newState == connectivity.TransientFailure) - b2i(oldState == connectivity.TransientFailure)
+//@   ensures [C04.rt-result] (cse.numReady > 0 ==> result == connectivity.Ready) && (cse.numReady == 0 && cse.numConnecting > 0 ==> result == connectivity.Connecting) && (cse.numReady == 0 && cse.numConnecting == 0 ==> result == connectivity.TransientFailure)
+//@   loop 1 invariant $i == -1 ==> cse.numReady == old(cse.numReady) && cse.numConnecting == old(cse.numConnecting) && cse.numTransientFailure == old(cse.numTransientFailure)
+//@   loop 1 invariant $i == 0 ==> cse.numReady == old(cse.numReady) - b2i(oldState == connectivity.Ready) && cse.numConnecting == old(cse.numConnecting) - b2i(oldState == connectivity.Connecting) && cse.numTransientFailure == old(cse.numTransientFailure) - b2i(oldState == connectivity.TransientFailure)
+//@   loop 1 invariant $i == 1 ==> cse.numReady == old(cse.numReady) + b2i(newState == connectivity.Ready) - b2i(oldState == connectivity.Ready) && cse.numConnecting == old(cse.numConnecting) + b2i(newState == connectivity.Connecting) - b2i(oldState == connectivity.Connecting) && cse.numTransientFailure == old(cse.numTransientFailure) + b2i(newState == connectivity.TransientFailure) - b2i(oldState == connectivity.TransientFailure)
+//@
+//@ func (gb *gcpBalancer) bindSubConn
+//@ func (gb *gcpBalancer) unbindSubConn
+//@ func (gb *gcpBalancer) UpdateSubConnState
+//@   requires sc != nil
